@@ -283,11 +283,13 @@ def decode_program(data: bytes, prof: dict) -> dict:
     for _ in range(nsteps):
         name = d.weighted(prof["ops"])
         op = gen_op(d, prof, name, 0)
-        if name not in ("tick", "settle", "flush", "close", "until_closed"):
+        if name in ("flush", "close", "until_closed"):
+            op["place"] = d.pick(["eager", "eager", "task"])
+        elif name not in ("tick", "settle"):
             op["place"] = d.pick(prof["places"])
         steps.append(op)
     if d.p(prof["end_with_close"]):
-        steps.append({"op": "close", "pool": d.i(0, npools - 1), **({"re": True} if d.p(0.3) else {})})
+        steps.append({"op": "close", "pool": d.i(0, npools - 1), "place": d.pick(["eager", "task"]), **({"re": True} if d.p(0.3) else {})})
     prog = {"pools": pools, "steps": steps}
     for hook in prof.get("post", ()):
         prog = hook(prog, d)
